@@ -73,6 +73,10 @@ class C07(Prop):
         if op == "mask":
             c["mask"] = [rng.random() < 0.4 for _ in range(C)]
             c["mval"] = rng.choice((0, 1, 0)) if nbits < 8 else rng.choice((0, 3, 7))
+            if nbits == 32:
+                # float files: any fill value is representable, and baselines below zero are ordinary
+                c["mval"] = rng.choice((0, 3, -1.5, -0.25, 2.75, -300))
+                c["off"] = rng.choice((0, -2000))
         if op == "chans":
             # any order: ascending, descending, and orders whose sorting permutation is not its own inverse
             c["chans"] = rng.sample(range(C), rng.randint(1, min(C, 6)))
@@ -146,7 +150,7 @@ class C07(Prop):
     # ------------------------------------------------------------------
     def _data(self, case):
         rng = random.Random(case["dseed"])
-        x = spfiles.rand_data(rng, case["N"], case["C"], case["nbits"])
+        x = spfiles.rand_data(rng, case["N"], case["C"], case["nbits"]) + case.get("off", 0)
         if case.get("dconst"):
             # every group mean is an exact integer: the reduction to the output depth must not lose a level
             x[:] = x[0, 0]
@@ -284,8 +288,10 @@ class C07(Prop):
         zeros = " ".join(["0"] * C)
         if op in ("invert", "samps", "zerodm"):
             return [f"C07 {op} {head} 0 0 0 {zeros} {flat}"]
+        if op == "mask" and (case["mval"] != int(case["mval"]) or case.get("off")):
+            return []          # the exact model is over integers
         if op == "mask":
-            return [f"C07 mask {head} {case['mval']} 0 0 {' '.join('1' if m else '0' for m in case['mask'])} {flat}"]
+            return [f"C07 mask {head} {int(case['mval'])} 0 0 {' '.join('1' if m else '0' for m in case['mask'])} {flat}"]
         if op == "chans":
             return [f"C07 chan {head} 0 {c} 0 {zeros} {flat}" for c in case["chans"]]
         if op == "bands":
